@@ -1,7 +1,179 @@
 import Aqv.Base.Proto
-open Aqv Aqv.Proto
+import Aqv.Model.BlockImport
+open Aqv Aqv.Proto Aqv.BlockImport
 
-/-- stub driver for C01 (answers every case line with "bad-op"); replaced when the property is built. -/
-def handle (l : String) : String := let _ := l; "bad-op\tagree"
+/-!
+  Model driver for C01.  Two kinds of case lines (see go/harness/cmd/c01/cases.go and fin.go):
+
+  `imp …`  one block delivered to a node that holds its parent.  The harness supplies the header's six commitments and
+           the component values recomputed by the real code outside the import path (DeriveSha of the body, CalcUncleHash,
+           the engine's header / uncle verdicts, per-transaction gas / status / logs of an independent Process, its state
+           root and receipt root).  The driver instantiates the abstract components of `Aqv.BlockImport` with these values
+           (Keccak-based bloom computed here), builds a two-block store and runs the MODEL's `importBlock`; it answers what
+           the model stores (`accept gas= cum= bloom=`) or the first failing check (`reject <class>`).
+  `fin …`  a dirty set dumped right before `StateDB.Finalise`.  The driver runs the model's `finalise` in the given order
+           and in the reversed order (they must agree) and answers the account / storage contents afterwards.
+-/
+
+def hexNat (s : String) : Nat :=
+  s.toList.foldl (fun acc c => match hexVal c with | some d => acc * 16 + d | none => acc) 0
+
+def natHex (n : Nat) : String :=
+  if n = 0 then "0" else
+    let rec go (fuel n : Nat) (acc : List Char) : List Char :=
+      match fuel with
+      | 0 => acc
+      | f + 1 => if n = 0 then acc else go f (n / 16) (hexDigit (n % 16) :: acc)
+    String.ofList (go (n.log2 + 2) n [])
+
+def padLeft (w : Nat) (bs : Bytes) : Bytes := List.replicate (w - bs.length) 0 ++ bs
+
+def kv (tok : String) : String × String :=
+  match tok.splitOn "=" with
+  | [k] => (k, "")
+  | k :: rest => (k, "=".intercalate rest)
+  | [] => ("", "")
+
+def lookup (m : List (String × String)) (k : String) : String :=
+  match m.find? (fun p => p.1 == k) with
+  | some p => p.2
+  | none => ""
+
+structure RInfo where
+  failed : Bool
+  post : Option Nat
+  gas : Nat
+  logs : List Log
+
+def parseLog (s : String) : Log :=
+  match s.splitOn ":" with
+  | a :: ts => { addr := hexNat a, topics := ts.map hexNat, data := 0 }
+  | [] => { addr := 0, topics := [], data := 0 }
+
+def parseR (s : String) : RInfo :=
+  match s.splitOn ";" with
+  | [f, p, g, ls] =>
+    { failed := f == "1", post := if p == "-" then none else some (hexNat p), gas := g.toNat!,
+      logs := if ls == "" then [] else (ls.splitOn "+").map parseLog }
+  | _ => { failed := false, post := none, gas := 0, logs := [] }
+
+def finalMark : Nat := 1000000007
+
+def mkComp (ri : Array RInfo) (pOk : Bool) (cTx cUn cRoot cRc : Nat) : Comp Nat Nat :=
+  { applyMsg := fun _ _ st pool tx =>
+      if !pOk then .error 1 else
+      match ri[tx]? with
+      | some r => .ok { st := st + 1, gas := r.gas, failed := r.failed, logs := r.logs, pool := pool - r.gas }
+      | none => .error 2,
+    finalise := fun _ st => st,
+    root := fun st => if st = finalMark then cRoot else
+      match ri[st - 1]? with
+      | some r => r.post.getD 0
+      | none => 0,
+    hf4Edit := id, hf5Edit := id,
+    addBalance := fun _ _ _ => finalMark,
+    txRoot := fun _ => cTx, uncleHash := fun _ => cUn, receiptRoot := fun _ => cRc,
+    logBloom := fun l => logBloomBytes (padLeft 20 (beBytes l.addr)) (l.topics.map (fun t => padLeft 32 (beBytes t))),
+    hashHeader := fun h => h.extra,
+    blockReward := 1, maxMoney := 42000000,
+    calcGasLimit := fun _ => 0, calcDifficulty := fun _ _ => 0 }
+
+def errClass : Err → String
+  | .headerInvalid => "header" | .blacklisted => "header" | .noChain => "header"
+  | .unknownAncestor => "unknown-ancestor" | .noParentState => "no-parent-state" | .panic => "panic"
+  | .unclesInvalid => "uncles" | .uncleHash => "uncle-hash" | .txRoot => "tx-root" | .apply _ => "apply"
+  | .gasUsed => "gas-used" | .bloom => "bloom" | .receiptRoot => "receipt-root" | .stateRoot => "state-root"
+
+def handleImp (toks : List String) (go : String) : String :=
+  let m := toks.map kv
+  let num := (lookup m "num").toNat!
+  let ntx := (lookup m "ntx").toNat!
+  let hs := (lookup m "H").splitOn ","
+  let bs := (lookup m "B").splitOn ","
+  let ps := (lookup m "P").splitOn ","
+  match hs, bs, ps with
+  | [hTx, hUn, hRoot, hRc, hBloom, hGas], [cTx, cUn], [pOk, cRoot, cRc] =>
+    let rstr := lookup m "R"
+    let ri : Array RInfo := if rstr == "" then #[] else ((rstr.splitOn "/").map parseR).toArray
+    let comp := mkComp ri (pOk == "ok") (hexNat cTx) (hexNat cUn) (hexNat cRoot) (hexNat cRc)
+    let hv := lookup m "hv" == "1"
+    let uv := lookup m "uv" == "1"
+    let C : ChainComp Nat Nat :=
+      { comp with verifyHeader := fun _ _ => hv, verifyUncles := fun _ _ => uv, blacklisted := fun _ => false, bodyFirst := true }
+    let cfg : Cfg := { hf4 := none, hf5 := none, byzantium := if lookup m "byz" == "1" then some 0 else none, eip158 := some 0 }
+    let ph : Header := { parentHash := 0, number := num - 1, coinbase := 0, gasLimit := 0, time := 0, difficulty := 1, extra := 1,
+                         uncleHash := 0, root := 77, txHash := 0, receiptHash := 0, bloom := 0, gasUsed := 0 }
+    let S : Store Nat Nat :=
+      { blocks := upd (fun _ => none) 1 (some { block := { header := ph, txs := [], uncles := [] }, td := 1, receipts := some [], gasUsed := 0 }),
+        states := upd (fun _ => none) 77 (some 0), head := 1, log := [] }
+    let h : Header := { parentHash := 1, number := num, coinbase := 0, gasLimit := 1000000000000, time := 1, difficulty := 1, extra := 2,
+                        uncleHash := hexNat hUn, root := hexNat hRoot, txHash := hexNat hTx, receiptHash := hexNat hRc,
+                        bloom := hexNat hBloom, gasUsed := hGas.toNat! }
+    let b : Block Nat := { header := h, txs := List.range ntx, uncles := [] }
+    let (o, S') := importBlock C cfg false S b
+    let model :=
+      match o with
+      | .written =>
+        match S'.blocks 2 with
+        | some s =>
+          let rs := s.receipts.getD []
+          s!"accept gas={s.gasUsed} cum={",".intercalate (rs.map (fun r => toString r.cumGas))} bloom={natHex (createBloom comp rs)}"
+        | none => "accept-but-not-stored"
+      | .abort e => "reject " ++ errClass e
+      | .skipped => "skipped"
+      | .side => "side"
+    -- Spec judgement of the real node's verdict: accepting is allowed only when the model (= the recomputed commitments) accepts
+    -- with the same stored results; refusing is always within the property.
+    let specOk := !(go.startsWith "accept")
+    verdict model go specOk "accepted-block-fails-recomputed-commitments"
+  | _, _, _ => "bad-op\tagree"
+
+def parseKV3 (s : String) : List (Nat × Nat × Nat) :=
+  if s == "" then [] else
+  (s.splitOn ";").map (fun e =>
+    match e.splitOn ":" with
+    | [k, v, p] => (k.toNat!, v.toNat!, p.toNat!)
+    | _ => (0, 0, 0))
+
+def handleFin (toks : List String) (go : String) : String :=
+  match toks with
+  | [_, delS, body] =>
+    let del := delS == "1"
+    let entries := (body.splitOn "|").map (fun e => e.splitOn ",")
+    let parsed := entries.filterMap (fun f =>
+      match f with
+      | [idx, hasObj, sui, nonce, bal, codeEmpty, kvs] =>
+        some (idx.toNat!, hasObj == "1", sui == "1", nonce.toNat!, bal.toNat!, codeEmpty == "1", parseKV3 kvs)
+      | [idx, hasObj, sui, nonce, bal, codeEmpty] =>
+        some (idx.toNat!, hasObj == "1", sui == "1", nonce.toNat!, bal.toNat!, codeEmpty == "1", [])
+      | _ => none)
+    let objs : Nat → Option Obj := parsed.foldl (fun m (idx, hasObj, sui, nonce, bal, ce, kvs) =>
+      if hasObj then
+        upd m idx (some { nonce := nonce, balance := bal, codeHash := if ce then 0 else 1, sroot := 0,
+                          storage := kvs.foldl (fun s (k, _, p) => upd s k p) (fun _ => 0),
+                          dirty := kvs.foldl (fun d (k, v, _) => upd d k (some v)) (fun _ => none),
+                          suicided := sui, deleted := false })
+      else m) (fun _ => none)
+    let s : SDB := { trie := fun _ => none, objs := objs, dirty := fun a => parsed.any (fun p => p.1 == a), fault := false }
+    let order := parsed.map (·.1)
+    let keysOf (a : Nat) : List Nat := match parsed.find? (fun p => p.1 == a) with | some p => p.2.2.2.2.2.2.map (·.1) | none => []
+    let R : (Slot → Word) → Hash := fun _ => 0
+    let s1 := finalise R del order keysOf s
+    let s2 := finalise R del order.reverse (fun a => (keysOf a).reverse) s
+    let render (t : SDB) : String :=
+      "|".intercalate (order.map (fun a =>
+        match t.trie a, t.objs a with
+        | some l, some o => s!"{a}=1,{l.nonce},{l.balance}," ++ ";".intercalate ((keysOf a).map (fun k => s!"{k}:{o.storage k}"))
+        | _, _ => s!"{a}=0"))
+    let out := if s1.fault then "fault" else if render s1 != render s2 then "order-dependent" else render s1
+    verdict out go true "finalise"
+  | _ => "bad-op\tagree"
+
+def handle (l : String) : String :=
+  let (inp, go) := splitCase l
+  match fields inp with
+  | "imp" :: rest => handleImp rest go
+  | "fin" :: rest => handleFin ("fin" :: rest) go
+  | _ => "bad-op\tagree"
 
 def main : IO Unit := runLines handle
